@@ -8,8 +8,8 @@
 (* line of the generating replica starts a scenario.  Deterministic and total.            *)
 EXTENDS Integers, Sequences, FiniteSets, TLC, Json
 
-VARIABLES l, recs, restarted, restartedAt, tainted, impTaint, viol, nscn, ncommit
-tvars == <<l, recs, restarted, restartedAt, tainted, impTaint, viol, nscn, ncommit>>
+VARIABLES l, recs, restarted, restartedAt, tainted, impTaint, qsnaps, viol, nscn, ncommit
+tvars == <<l, recs, restarted, restartedAt, tainted, impTaint, qsnaps, viol, nscn, ncommit>>
 
 Trace == ndJsonDeserialize("trace.ndjson")
 
@@ -19,7 +19,9 @@ Sig(prop, kind, class, e) == [prop |-> prop, kind |-> kind, class |-> class, scn
 \* the IBC localhost client records the current block height, and the second export
 \* necessarily happens one height later (DESIGN.md section 2)
 HeaderDerived(m, p) ==
-    m = "ibc" /\ p = ".client_genesis.clients[].client_state.latest_height.revision_height"
+    \/ m = "ibc" /\ p = ".client_genesis.clients[].client_state.latest_height.revision_height"
+    \* BLOCKHASH of blocks before the import: the new chain has no such blocks
+    \/ m = "queries" /\ p = "evm.ethcall-probe"
 
 \* what differs between two commit records, most specific first
 TxDiff(a, b) ==
@@ -46,10 +48,14 @@ RecDiff(a, b) ==
     ELSE "appHash"
 
 GasKind == "gasUsed-of-tx-rejected-before-ante-handler"
+\* query keys end in a per-account index: the class is the query kind
+QNorm(k) == LET dots == {i \in 1..Len(k) : SubSeq(k, i, i) = "."} IN
+            IF Cardinality(dots) < 2 THEN k
+            ELSE LET second == CHOOSE i \in dots : Cardinality({j \in dots : j < i}) = 1 IN SubSeq(k, 1, second - 1)
 UnbondKinds == {"undelegate", "redelegate", "pc_undelegate"}
 DivergenceProp(r1, r2) == IF restarted[r1] \/ restarted[r2] THEN "C20" ELSE "C01"
 
-TraceInit == l = 1 /\ recs = <<>> /\ restarted = <<>> /\ restartedAt = <<>> /\ tainted = {} /\ impTaint = "" /\ viol = {} /\ nscn = 0 /\ ncommit = 0
+TraceInit == l = 1 /\ recs = <<>> /\ restarted = <<>> /\ restartedAt = <<>> /\ tainted = {} /\ impTaint = "" /\ qsnaps = <<>> /\ viol = {} /\ nscn = 0 /\ ncommit = 0
 
 TraceNext ==
     /\ l <= Len(Trace)
@@ -61,6 +67,7 @@ TraceNext ==
                  /\ restartedAt' = IF e.r = "gen" THEN (e.r :> -1) ELSE (e.r :> -1) @@ restartedAt
                  /\ tainted' = IF e.r = "gen" THEN {} ELSE tainted
                  /\ impTaint' = IF e.r = "gen" THEN "" ELSE impTaint
+                 /\ qsnaps' = IF e.r = "gen" THEN <<>> ELSE qsnaps
                  /\ nscn' = IF e.r = "gen" THEN nscn + 1 ELSE nscn
                  /\ UNCHANGED <<viol, ncommit>>
             [] e.ev = "commit" ->
@@ -79,17 +86,26 @@ TraceNext ==
                       \cup {Sig("C15", e.broken[j].route, "-", e) : j \in 1..Len(e.broken)}
                  /\ tainted' = tainted \cup (IF \E r2 \in DOMAIN recs \ {e.r} : Len(recs[r2]) >= e.h /\ recs[r2][e.h] # e.rec
                                                             /\ RecDiff(recs[r2][e.h], e.rec) = GasKind THEN {e.r} ELSE {})
-                 /\ UNCHANGED <<restarted, restartedAt, impTaint, nscn>>
+                 /\ UNCHANGED <<restarted, restartedAt, impTaint, qsnaps, nscn>>
             [] e.ev = "local" ->
                  /\ viol' = viol \cup (IF e.before = e.after THEN {}
                                        ELSE {Sig(IF restarted[e.r] THEN "C20" ELSE "C01", "local-action-changed-committed-state", e.kind, e)})
-                 /\ UNCHANGED <<recs, restarted, restartedAt, tainted, impTaint, nscn, ncommit>>
+                 /\ UNCHANGED <<recs, restarted, restartedAt, tainted, impTaint, qsnaps, nscn, ncommit>>
             [] e.ev = "restart" ->
                  /\ restarted' = [restarted EXCEPT ![e.r] = TRUE]
                  /\ restartedAt' = [restartedAt EXCEPT ![e.r] = e.h]
                  /\ viol' = viol \cup (IF e.info = e.expect THEN {}
                                        ELSE {Sig("C20", IF e.info.height # e.expect.height THEN "info-height" ELSE "info-appHash", "-", e)})
-                 /\ UNCHANGED <<recs, tainted, impTaint, nscn, ncommit>>
+                      \* "answers queries identically": against the snapshot the never-stopped node took at this height
+                      \cup (IF e.h \in DOMAIN qsnaps
+                           THEN {IF e.r \in tainted THEN Sig("C20", "divergence-following-" \o GasKind, "after-restart", e)
+                                 ELSE Sig("C20", "query-answer-differs-after-restart", QNorm(k), e) :
+                                   k \in {x \in DOMAIN e.queries : x \notin DOMAIN qsnaps[e.h] \/ qsnaps[e.h][x] # e.queries[x]}}
+                           ELSE {})
+                 /\ UNCHANGED <<recs, tainted, impTaint, qsnaps, nscn, ncommit>>
+            [] e.ev = "qsnap" ->
+                 /\ qsnaps' = (e.h :> e.queries) @@ qsnaps
+                 /\ UNCHANGED <<recs, restarted, restartedAt, tainted, impTaint, viol, nscn, ncommit>>
             [] e.ev = "imported_block" ->
                  \* the chain started from the exported genesis executes the following blocks like the original:
                  \* same code, result data and gas of every transaction (the gas of a transaction rejected before
@@ -121,7 +137,7 @@ TraceNext ==
                           ELSE IF first # 0 /\ counterLost(e.txs[first]) THEN Sig("C19", follow("ubd"), "after-import", e)
                           ELSE Sig("C19", "behaviour-after-import:" \o e.txs[x].k, what(e.txs[x]), e) : x \in bad}
                     /\ impTaint' = cause
-                    /\ UNCHANGED <<recs, restarted, restartedAt, tainted, nscn, ncommit>>
+                    /\ UNCHANGED <<recs, restarted, restartedAt, tainted, qsnaps, nscn, ncommit>>
             [] e.ev = "export_import" ->
                  /\ impTaint' = ""      \* a new chain is started from this export
                  /\ viol' = viol \cup
@@ -130,7 +146,7 @@ TraceNext ==
                                <<m, p>> \in {mp \in UNION {{<<m2, p2>> : p2 \in DOMAIN e.before[m2]} : m2 \in DOMAIN e.before} :
                                                 /\ e.before[mp[1]][mp[2]] # e.after[mp[1]][mp[2]]
                                                 /\ ~HeaderDerived(mp[1], e.norm[mp[1]][mp[2]])}})
-                 /\ UNCHANGED <<recs, restarted, restartedAt, tainted, nscn, ncommit>>
+                 /\ UNCHANGED <<recs, restarted, restartedAt, tainted, qsnaps, nscn, ncommit>>
 
 TraceSpec == TraceInit /\ [][TraceNext]_tvars
 
